@@ -832,6 +832,7 @@ fn gen_synth(t: &mut Tape, arch: usize) -> (String, FnSpec) {
     p.raw_divisor_permille = 0;
     p.index_gaps_permille = 200;
     p.nop_placeholders = true;
+    p.function_index = true;
     let mut g = gen_fn(t, &p);
     for blk in g.spec.blocks.iter_mut() {
         for o in blk.iter_mut() {
